@@ -636,6 +636,8 @@ def strat_reparam(env, cfg):
     f = facts(env, cfg)
     pool = [[0, i, tw] for i, tw in sorted(f["ep"].items())] * 3 + [[2, i, 0] for i in f["fp"]] + \
         [[1, i, 0] for i in f["eb"]] * 2
+    # a modulus installed without a named identifier (fp_prime_set_dense) between named selections
+    pool += [[3, 0, 0], [3, 1, 0]]
 
     @st.composite
     def s(draw):
@@ -658,7 +660,7 @@ def strat_reparam(env, cfg):
 
 
 def _probe_family(sel):
-    return {0: 1, 2: 0, 1: 2}[sel[0]]
+    return {0: 1, 2: 0, 1: 2, 3: 0}[sel[0]]
 
 
 def _reference(env, cfg, sel, seed):
@@ -756,7 +758,7 @@ def run_reparam(env, cfg, case):
     sels = [tuple(e["sel"]) for e in seq]
     labels = ["seq-len:%d" % len(seq), "distinct-ids:%d" % len(set(sels))]
     for s_ in sorted(set(sels)):
-        labels.append("sel:%s:%s" % (("ep", "eb", "fp")[s_[0]], EP_NAMES.get(s_[1], s_[1]) if s_[0] == 0 else s_[1]))
+        labels.append("sel:%s:%s" % (("ep", "eb", "fp", "dense-prime")[s_[0]], EP_NAMES.get(s_[1], s_[1]) if s_[0] == 0 else s_[1]))
     uses = [u for e in seq for u in e["use"]]
     for u in uses:
         if u[0] == 0:
@@ -1022,7 +1024,18 @@ def _kf_stale_par(case, v, entry):
     return True
 
 
-KNOWN_PREDICATES = {"finally_nested_try_clobbers_caught": _kf_caught_flag, "stale_prime_parameter": _kf_stale_par}
+def _kf_stale_fp_id(case, v, entry):
+    """fp_prime_set_dense (and the other direct installers) leave ctx->fp_id untouched: after a named selection
+    fp_param_get() keeps reporting that name for a modulus that is not it, and fp_prime_get_par() keeps the generation
+    parameter of a previously selected pairing prime. Only these descriptive items differ from a fresh library; every
+    computed probe item agrees."""
+    d = v.details or {}
+    return (bool(d.get("items")) and set(d["items"]) <= {"fp_id", "par", "par_sps"}
+            and isinstance(d.get("last"), (list, tuple)) and len(d["last"]) == 3 and d["last"][0] == 3)
+
+
+KNOWN_PREDICATES = {"finally_nested_try_clobbers_caught": _kf_caught_flag, "stale_prime_parameter": _kf_stale_par,
+                    "stale_fp_id_after_direct_prime": _kf_stale_fp_id}
 
 
 def evidence_extra(results):
